@@ -64,8 +64,8 @@ def set_path(vals, path, new):
 
 
 @st.composite
-def cases(draw):
-    c = draw(decl.decl_cases(PROF, ntrees=3, offsets=False, trunc_cap=32, randoms=2))
+def cases(draw, prof=PROF):
+    c = draw(decl.decl_cases(prof, ntrees=3, offsets=False, trunc_cap=32, randoms=2))
     bad = []
     for vals in c["trees"]:
         ls = leaves(c["fam"], vals)
@@ -288,7 +288,7 @@ def layout(draw):
 def run_shard(shard, ctx):
     if shard["k"] % 8 == 0:
         check_descriptors(ctx)
-    run_given(ctx, cases(), lambda c: run_case(ctx, c), 150 if ctx.tier == "quick" else 1500)
+    run_given(ctx, cases(PROF if ctx.tier == "quick" else gen.deeper(PROF)), lambda c: run_case(ctx, c), 150 if ctx.tier == "quick" else 1500)
     # explicitly placed, out-of-order, possibly colliding layouts: pack() must raise a located PacketError exactly when bytes collide
     run_given(ctx, layout(), lambda c: run_case(ctx, c), 100 if ctx.tier == "quick" else 1000, salt=1)
 
